@@ -164,7 +164,7 @@ class ExecMixin:
 
     def budget(self):
         self.path_count += 1
-        if self.path_count > self.max_paths:
+        if self.path_count > self.con.ghost.get("max_paths", self.max_paths):
             raise Unsupported("path budget exceeded")
 
     def exec_stmt(self, s, st):
